@@ -65,7 +65,7 @@ void harness(void)
     __CPROVER_assert(!(vb_exc == 0 && is.rdstate == 0 && is.g - 16 > g0 + 9), "canary-filler");
 }
 '''
-    return core.Job('C09_ObjectHeaderBase_read', src, route='harness', loop_contracts=True, flags=FLAGS,
+    j = core.Job('C09_ObjectHeaderBase_read', src, route='harness', loop_contracts=True, flags=FLAGS,
                     functions=['ObjectHeaderBase::read'], timeout=900,
                     labels={'re:loop invariant before entry': 'C09/ObjectHeaderBase/read/resync-loop-invariant-holds-on-entry',
                             're:loop invariant is preserved': 'C09/ObjectHeaderBase/read/resync-loop-invariant-preserved-(no-signature-skipped-by-the-seek-back)',
@@ -74,6 +74,8 @@ void harness(void)
                             're:assignable|Check that .* is assignable': 'C09/ObjectHeaderBase/read/resync-loop-frame'},
                     canary_ids=['harness.assertion.12', 'harness.assertion.13'],
                     expect_kinds=[r'loop invariant before entry', r'loop invariant is preserved', r'decreases clause'])
+    j.weight = 10
+    return j
 
 
 def main():
